@@ -456,10 +456,12 @@ class ProductLaplaceKernel(Kernel):
         xm = self._transform_m(x, mat)
         zm = self._transform_m(z, mat)
         def forward_func(zm_):
-            dists = torch.cdist(xm, zm_, p=self.exponent) ** self.exponent
+            base_dists = torch.cdist(xm, zm_, p=self.exponent)
+            dists = base_dists ** self.exponent
             factor = -((1. / self.bandwidth) ** self.exponent)
             # this is \sum_j f(z_j), so the derivative wrt z will be jacobian(f)(z_j) for all z_j
-            return coefs @ torch.exp(factor * (dists * (dists >= self.eps))).sum(dim=1)
+            # the coincidence mask is on the distance itself (as in LpqLaplaceKernel), not on its q-th power
+            return coefs @ torch.exp(factor * (dists * (base_dists >= self.eps))).sum(dim=1)
 
         # per-output reverse mode: vmapped jacrev through torch.cdist returns the first output's gradient for every output
         return torch.autograd.functional.jacobian(forward_func, zm)
